@@ -9,15 +9,20 @@ Space (everything below is enumerated completely, nothing is sampled)
              (P,  for PRINT)  every member of the family with <= n snippets of the WHOLE 27-snippet alphabet (every
              directive type: open, close, commodity, pad, balance, transaction, note, event, query, price, document,
              custom); quick n <= 2 (379 ledgers), thorough n <= 3 (3 304)
-             + four ledgers outside the bound, for all three statements: the full alphabet, the full alphabet
+             + five ledgers outside the bound, for all three statements: the full alphabet, the full alphabet
              without pad / plugin (round trip over every directive type at once), LONGTEXT (payees /
-             narrations shorter than, equal to and longer than the register's widths 48 / 80), and ZEROCOST (lots
-             booked at a per-unit cost of exactly zero next to an ordinary lot, one of them reduced)
+             narrations shorter than, equal to and longer than the register's widths 48 / 80), ZEROCOST (lots
+             booked at a per-unit cost of exactly zero next to an ordinary lot, one of them reduced) and NESTED
+             (accounts whose full name is a prefix / substring of other accounts)
   BALANCES   AT f in {absent, units, cost}  x  FROM menu  x  WHERE in {absent, account ~ 'Assets', number > 0,
              currency = 'USD'}
   JOURNAL    account pattern in {absent, '', 'Assets', 'Assets:Cash|Expenses', 'NoSuchAccount' (matches nothing),
              'aSSets:ca' (case varied), '^Income|Card$' (anchors), two patterns containing a double quote}
              x AT f  x  FROM menu                 (per BJ ledger: quick 348 + 783, thorough 924 + 2 079 statements)
+             + every FULL ACCOUNT NAME opened in the preamble / the extra ledgers (the argument is a regular
+             expression searched in the name: 'Assets:Bank' also lists Assets:Bank:Savings, Assets:Bank-Old and
+             Liabilities:Assets:Bank of the NESTED ledger), 'ASSETS:CASH' and a plugin account  x AT f  x  FROM in
+             {absent, flag = '*', OPEN ON .. CLOSE ON .. CLEAR}
   FROM menu  absent; filter expressions year = 2020, date < 2020-01-10, date >= 2020-02-01, flag = '*',
              payee ~ 'bro|caf', narration ~ 'lunch|buy|conv', has_account('Expenses'), NOT has_account('Cash'),
              year = 2020 AND NOT has_account('Inv');  OPEN ON d / CLOSE [ON e] / CLEAR: quick a list of 15 subsets
@@ -148,6 +153,30 @@ assert (len(_P60), len(_N100), len(_P48), len(_N80)) == (60, 100, 48, 80)
 
 #: lots booked at a per-unit cost of exactly ZERO (gift, stock grant, airdrop) next to an ordinary lot: the cost of
 #: such a position is 0 of the cost currency, not its units
+#: accounts whose full name is a proper prefix / substring of other accounts of the same ledger: the JOURNAL argument
+#: is a regular expression SEARCHED in the account name, so 'Assets:Bank' also lists Assets:Bank:Savings,
+#: Assets:Bank-Old and Liabilities:Assets:Bank
+NESTED = ledgers.PREAMBLE + '''\
+2019-12-05 open Assets:Bank:Savings
+2019-12-05 open Assets:Bank-Old
+2019-12-05 open Liabilities:Assets:Bank
+2020-01-04 * "Opening balance"
+  Assets:Bank  1000.00 USD
+  Equity:Opening-Balances
+2020-01-05 * "Move to savings"
+  Assets:Bank:Savings  300.00 USD
+  Assets:Bank  -300.00 USD
+2020-01-06 * "Keep a little in the old account"
+  Assets:Bank-Old  50.00 USD
+  Assets:Bank  -50.00 USD
+2020-01-07 * "Lender" "A loan named after the bank"
+  Assets:Bank  200.00 USD
+  Liabilities:Assets:Bank  -200.00 USD
+2020-02-05 * "Interest"
+  Assets:Bank:Savings  1.50 USD
+  Income:Salary
+'''
+
 ZEROCOST = ledgers.PREAMBLE + '''\
 2020-01-04 * "Opening balance"
   Assets:Cash  1000.00 USD
@@ -411,6 +440,16 @@ WHERES = collections.OrderedDict([
 QUOTE_CRASH = 'a"b'
 QUOTE_INJECT = 'Zzz" OR account ~ "Assets'
 PATTERNS = [None, '', 'Assets', 'Assets:Cash|Expenses', 'NoSuchAccount', 'aSSets:ca', '^Income|Card$', QUOTE_CRASH, QUOTE_INJECT]
+
+
+def _opened(text):
+    return re.findall(r'^\d{4}-\d\d-\d\d open (\S+)', text, re.MULTILINE)
+
+
+#: every full account name opened by the preamble or by an extra ledger, as JOURNAL argument (+ another letter case
+#: and an account created by the plugin); ledger independent: a name absent from a ledger simply matches nothing
+ACCOUNT_PATTERNS = list(dict.fromkeys(_opened(ledgers.PREAMBLE) + _opened(NESTED) + ['ASSETS:CASH', 'Equity:CurrencyAccounts:USD']))
+ACCOUNT_FROMS = [('none', None, None, None), ("flag = '*'", None, None, None), ('none', D_IN1, D_IN2, True)]
 
 
 def from_ast(spec):
@@ -816,6 +855,10 @@ def bj_cases(thorough):
         for f in FUNCS:
             for pat in PATTERNS:
                 out.append(('journal', (pat, f, spec)))
+    for pat in ACCOUNT_PATTERNS:
+        for f in FUNCS:
+            for spec in ACCOUNT_FROMS:
+                out.append(('journal', (pat, f, spec)))
     return out
 
 
@@ -846,13 +889,15 @@ def extra_ledger(name, seed):
     if name == 'FULL-NOPAD':
         names = [n for n in ledgers.NAMES if n not in NO_ROUNDTRIP]
         return Ledger('FULL-ALPHABET-WITHOUT-PAD-AND-PLUGIN', ledgers.text_of(names, seed), {'ledger': {'extra': 'FULL-NOPAD'}, 'seed': seed}, True)
+    if name == 'NESTED':
+        return Ledger('NESTED', NESTED, {'ledger': {'extra': 'NESTED'}, 'seed': seed}, True)
     if name == 'ZEROCOST':
         return Ledger('ZEROCOST', ZEROCOST, {'ledger': {'extra': 'ZEROCOST'}, 'seed': seed}, True)
     assert name == 'LONGTEXT'
     return Ledger('LONGTEXT', LONGTEXT, {'ledger': {'extra': 'LONGTEXT'}, 'seed': seed}, True)
 
 
-EXTRAS = ['FULL', 'FULL-NOPAD', 'LONGTEXT', 'ZEROCOST']
+EXTRAS = ['FULL', 'FULL-NOPAD', 'LONGTEXT', 'ZEROCOST', 'NESTED']
 
 
 def text_phase(acc, shard, nshards, thorough):
@@ -1012,6 +1057,8 @@ def run(ctx):
         'from_menu_print': len(print_from_menu(thorough)),
         'where_menu': list(WHERES),
         'patterns': [repr(p) for p in PATTERNS],
+        'full_account_name_patterns': ACCOUNT_PATTERNS,
+        'from_menu_of_the_full_account_name_patterns': [show_spec(s) for s in ACCOUNT_FROMS],
         'bj_ledgers': c['bj_ledgers'], 'print_ledgers': c['print_ledgers'],
         'print_ledgers_with_roundtrip': c['print_ledgers_with_roundtrip'],
         'balances_statements': c['balances_statements'], 'balances_fully_compared': c['balances_compared'],
